@@ -34,15 +34,24 @@ var roles = []string{"field", "param", "local", "generic", "annotation", "new", 
 func GenImportProject(t *tape.Tape, maxFiles int) []ImportFile {
 	n := t.Int(1, maxFiles)
 	dirs := []string{"", "a", "a/b", "m", "z"}
+	// multi-module layouts: the same package (and even the same class name) under two module roots
+	modules := []string{""}
+	if t.Bool(1, 3) {
+		modules = []string{"mod1/src/", "mod2/src/"}
+	}
 	var files []ImportFile
 	usedPaths := map[string]bool{}
 	for i := 0; i < n; i++ {
 		cls := fmt.Sprintf("%s%d", []string{"Alpha", "Beta", "Gamma", "Omega"}[t.Pick(4)], i)
+		if len(modules) > 1 && t.Bool(1, 2) {
+			cls = []string{"Alpha", "Beta"}[t.Pick(2)] // repeated names across modules
+		}
 		dir := dirs[t.Pick(len(dirs))]
 		p := cls + ".java"
 		if dir != "" {
 			p = dir + "/" + p
 		}
+		p = modules[t.Pick(len(modules))] + p
 		if usedPaths[p] {
 			continue
 		}
